@@ -181,6 +181,7 @@ def gen_spec(rng, fmt=None, max_elements=5, max_shells=8, max_l=7, max_prims=10,
         "respell": rng.random() < 0.3,
         "row_sep": rng.choice(["spaces"] * 4 + ["tab", "mixed"]),  # separator between the numbers of a row
         "hdr_indent": rng.choice([0, 0, 0, 1, 3]),  # element / shell header lines may be indented as well
+        "sections": rng.random() < 0.15,  # NWChem: the file consists of several BASIS ... END sections
         "interleave": rng.random() < 0.12,  # NWChem: blocks of different elements interleaved; Gaussian94: an element
                                             # heading two separate sections  # later blocks of a generalized contraction spell the same exponents differently
     }
@@ -277,6 +278,8 @@ def render(spec):
 
     def noise():
         out = []
+        if fmt == "nwchem" and lay.get("sections") and nrng.random() < 0.3:
+            out += ["END", 'BASIS "ao basis" PRINT']  # several BASIS ... END sections in one file
         if lay["comments"] and nrng.random() < 0.4:
             out.append(cchar + "BASIS SET: " + _comment(nrng))
         if lay["blanks"] and nrng.random() < 0.3:
